@@ -181,11 +181,35 @@ class SendExec:
                                       limit=cfg.get("limit", 2 ** 16))
         self.sent: List[dict] = []
         self.payloads: List[bytes] = []
+        self.objs: List[Any] = []
+        self.backing: List[Tuple[bytearray, int]] = []
         self.events: List[dict] = []
         self.tasks: Dict[str, asyncio.Task] = {}
         self.progs: Dict[str, List[int]] = {}
 
-    def add_message(self, sender: str, op: int, payload: bytes, ovr: int) -> int:
+    def add_message(self, sender: str, op: int, payload: bytes, ovr: int, kind: str = "bytes", same_as: int = -1) -> int:
+        """kind = container handed to send_frame: bytes | bytearray | memoryview (of a bytearray) | mvro
+        (memoryview of bytes) | mvslice (memoryview slice of a larger bytearray); same_as >= 0: the SAME
+        object as message same_as is sent again (its intended content is that message's)."""
+        if same_as >= 0:
+            payload = self.payloads[same_as]
+            obj = self.objs[same_as]
+        elif kind == "bytearray":
+            obj = bytearray(payload)
+        elif kind == "memoryview":
+            obj = memoryview(bytearray(payload))
+        elif kind == "mvro":
+            obj = memoryview(payload)
+        elif kind == "mvslice":
+            big = bytearray(b"\xa5" * 7 + payload + b"\x5a" * 9)
+            obj = memoryview(big)[7:7 + len(payload)]
+            self.backing.append((big, len(payload)))
+        else:
+            obj = payload
+        self.objs.append(obj)
+        return self._add(sender, op, payload, ovr)
+
+    def _add(self, sender: str, op: int, payload: bytes, ovr: int) -> int:
         seq = len(self.progs.setdefault(sender, [])) + 1
         self.sent.append({"sender": sender, "seq": seq, "op": op, "key": key_of(payload), "ovr": int(ovr)})
         self.payloads.append(payload)
@@ -196,21 +220,28 @@ class SendExec:
         for i in self.progs.get(name, []):
             m = self.sent[i]
             payload = self.payloads[i]
-            self.events.append({"ev": "call", "id": i + 1, "how": ""})
+            obj = self.objs[i]
+            # the caller's buffer must hold what the caller put there: before the call and after it
+            self.events.append({"ev": "call", "id": i + 1, "how": "", "mut": self._mutated(i)})
             try:
                 if m["op"] == G.OP_CLOSE:
                     code = struct.unpack("!H", payload[:2])[0]
                     await self.writer.close(code, payload[2:])
                 else:
-                    await self.writer.send_frame(payload, m["op"], compress=(m["ovr"] or None))
+                    await self.writer.send_frame(obj, m["op"], compress=(m["ovr"] or None))
             except asyncio.CancelledError:
-                self.events.append({"ev": "end", "id": i + 1, "how": "cancelled"})
+                self.events.append({"ev": "end", "id": i + 1, "how": "cancelled", "mut": self._mutated(i)})
                 raise
             except Exception:  # noqa: BLE001
-                self.events.append({"ev": "end", "id": i + 1, "how": "raised"})
+                self.events.append({"ev": "end", "id": i + 1, "how": "raised", "mut": self._mutated(i)})
             else:
-                self.events.append({"ev": "end", "id": i + 1, "how": "returned"})
+                self.events.append({"ev": "end", "id": i + 1, "how": "returned", "mut": self._mutated(i)})
             await asyncio.sleep(0)
+
+    def _mutated(self, i: int) -> bool:
+        if bytes(self.objs[i]) != self.payloads[i]:
+            return True
+        return any(bytes(big[:7]) != b"\xa5" * 7 or bytes(big[7 + n:]) != b"\x5a" * 9 for big, n in self.backing)
 
     # ---- schedule actions
     def spawn(self, name: str) -> None:
@@ -349,20 +380,50 @@ class Batcher:
 
 
 # ------------------------------------------------------------------ recipes (replayable executions)
+CONTAINERS = ["bytes", "bytes", "bytearray", "bytearray", "memoryview", "mvro", "mvslice"]
+
+
+def choose_containers(recipe: dict) -> List[list]:
+    """Payload-container dimension: for every message the kind of object handed to send_frame and,
+    for some, an earlier message of the same sender whose SAME object is sent again (equal opcode or
+    BINARY, same side of the 16 KiB threshold).  Stored in the recipe, so a replay is exact."""
+    rng = _random.Random(recipe["seed"] * 31 + 17)
+    msgs = recipe["messages"]
+    out: List[list] = []
+    for k, ent in enumerate(msgs):
+        op, size = ent[1], ent[2]
+        kind, same = rng.choice(CONTAINERS), -1
+        if op == G.OP_CLOSE or len(ent) > 5:
+            kind = "bytes"
+        elif k > 0 and rng.random() < 0.22:
+            cands = [j for j in range(k) if out[j][1] < 0 and len(msgs[j]) <= 5 and msgs[j][1] != G.OP_CLOSE
+                     and msgs[j][2] >= 2           # (payloads of 0 / 1 bytes carry no tag: not unique across senders)
+                     and msgs[j][0] == ent[0] and (msgs[j][1] == op or op == G.OP_BIN)
+                     and (msgs[j][2] > SYNC_CHUNK) == (size > SYNC_CHUNK)]
+            if cands:
+                same = rng.choice(cands)
+                kind = out[same][0]
+        out.append([kind, same])
+    return out
+
+
 def run_recipe(ctx: Ctx, loop: steploop.StepLoop, recipe: dict, src: str) -> dict:
     """recipe = {cfg, seed, messages: [[sender, op, size, shape, ovr]], schedule: [[act, who]]}"""
     rng = _random.Random(recipe["seed"])
     x = SendExec(loop, recipe["cfg"], recipe["seed"])
     block = bytes(rng.getrandbits(8) for _ in range(recipe.get("block", 3000)))
+    if "containers" not in recipe:
+        recipe["containers"] = choose_containers(recipe)
     for k, ent in enumerate(recipe["messages"]):
         sender, op, size, shape, ovr = ent[:5]
+        kind, same_as = recipe["containers"][k]
         if len(ent) > 5:                      # explicit payload (hex)
             payload = bytes.fromhex(ent[5])
         elif op == G.OP_CLOSE:
             payload = struct.pack("!H", 1000) + make_payload(rng, max(0, min(size, 123) - 2), G.OP_TEXT, k + 1, "utf8")
         else:
             payload = make_payload(rng, size, op, k + 1, shape, block)
-        x.add_message(sender, op, payload, ovr)
+        x.add_message(sender, op, payload, ovr, kind, same_as)
     for act, who in recipe["schedule"]:
         if act == "spawn":
             x.spawn(who)
@@ -395,10 +456,12 @@ CONSTANTS
   UseShield = {shield}
   SmallTakesLock = {smalllock}
   OvrTakesLock = {ovrlock}
+  Mask = {mask}
+  MaskCopies = {maskcopies}
 {invs}
 CHECK_DEADLOCK FALSE
 """
-ALL_INVS = ["WireOrderIsCtxOrder", "NoCtxAdvanceWithoutFrame", "DecodeOK", "PerSenderOrder", "ExactlyOnce",
+ALL_INVS = ["PayloadIntact", "CallerBufferIntact", "WireOrderIsCtxOrder", "NoCtxAdvanceWithoutFrame", "DecodeOK", "PerSenderOrder", "ExactlyOnce",
             "ControlNeverCompressed", "NothingAfterClose", "LockSafety", "NoLostWakeup"]
 
 # Python mirror of WsSendMC!ProgDef: sender -> [(op, size class, override?)]
@@ -409,6 +472,8 @@ PROGS = {
             "b": [("data", "large", True), ("data", "small", False)], "c": [("ping", "small", False)]},
     "ovr2": {"a": [("data", "small", False), ("data", "large", False)], "b": [("data", "small", True), ("data", "small", False)],
              "c": [("data", "small", False), ("data", "small", True)]},
+    "rebuf": {"a": [("data", "small", False), ("data", "small", False)], "b": [("data", "large", False), ("data", "small", False)],
+              "c": [("ping", "small", False), ("ping", "small", False)]},
     "close": {"a": [("data", "large", False), ("data", "small", False)], "b": [("close", "small", False), ("data", "small", False)],
               "c": [("data", "small", False), ("ping", "small", False)]},
     "pair": {"a": [("data", "large", False), ("data", "small", False)], "b": [("data", "small", False), ("data", "large", False)],
@@ -417,13 +482,14 @@ PROGS = {
 
 
 def write_cfg(prog: str, compress: bool, takeover: bool, maxcancel: int, fix: bool, shield: bool = True,
-              smalllock: bool = True, invs: Optional[List[str]] = None, latch: bool = False, ovrlock: bool = True) -> str:
+              smalllock: bool = True, invs: Optional[List[str]] = None, latch: bool = False, ovrlock: bool = True,
+              mask: bool = True, maskcopies: bool = True) -> str:
     d = mktemp("c11cfg")
     p = os.path.join(d, f"WsSendMC_{prog}.cfg")
     B = lambda b: str(bool(b)).upper()  # noqa: E731
     with open(p, "w") as f:
         f.write(MODEL_CFG.format(prog=prog, compress=B(compress), takeover=B(takeover), maxcancel=maxcancel, fix=B(fix), latch=B(latch),
-                                 shield=B(shield), smalllock=B(smalllock), ovrlock=B(ovrlock),
+                                 shield=B(shield), smalllock=B(smalllock), ovrlock=B(ovrlock), mask=B(mask), maskcopies=B(maskcopies),
                                  invs="\n".join("INVARIANT " + i for i in (invs or ALL_INVS))))
     return p
 
@@ -437,6 +503,8 @@ def model_runs(ctx: Ctx, override_as_found: bool, close_as_found: bool) -> None:
     runs = [("mix3", True, True, mc, ALL_INVS), ("pair", True, False, mc, ALL_INVS),
             ("close", True, True, mc, strong if latch else ALL_INVS), ("mix3", False, True, 1, ALL_INVS),
             ("ovr", True, False, mc, ALL_INVS),
+            # the same mutable buffer sent twice through a masking writer, compressed and not
+            ("rebuf", True, True, mc, ALL_INVS), ("rebuf", False, True, 1, ALL_INVS),
             # a large shared-context send in flight while small sends with / without override arrive
             ("ovr2", True, True, mc, ALL_INVS if fixo else [i for i in ALL_INVS if i != "DecodeOK"] + ["DecodeOnlyOverrideDev"]),
             # context takeover + per-message override: with the repaired design everything holds; with the code
@@ -474,10 +542,10 @@ def drive_model_behaviours(ctx: Ctx, loop: steploop.StepLoop) -> None:
     b = Batcher(ctx, "tlc-sim")
     rng = ctx.rng
     plans = [("mix3", 15, False, 2), ("pair", 12, True, 2), ("close", 15, False, 2), ("ovr", 15, False, 2), ("ovr", 11, True, 1),
-             ("ovr2", 15, False, 2), ("ovr2", 10, False, 1)]
+             ("ovr2", 15, False, 2), ("ovr2", 10, False, 1), ("rebuf", 0, False, 1), ("rebuf", 14, False, 2)]
     for prog, wbits, notakeover, mc in plans:
-        cfgp = write_cfg(prog, True, not notakeover, mc, False, invs=["LockSafety"])
-        behs, _res = simulate_behaviours("WsSendMC", cfgp, num=ctx.pick(90, 1500), depth=ctx.pick(40, 60), seed=ctx.seed, timeout=300)
+        cfgp = write_cfg(prog, wbits > 0, not notakeover, mc, False, invs=["LockSafety"])
+        behs, _res = simulate_behaviours("WsSendMC", cfgp, num=ctx.pick(70, 1500), depth=ctx.pick(40, 60), seed=ctx.seed, timeout=300)
         for bi, beh in enumerate(behs):
             msgs = []
             tiny: set = set()
@@ -500,6 +568,13 @@ def drive_model_behaviours(ctx: Ctx, loop: steploop.StepLoop) -> None:
                     sched.append(["step", ""])
             recipe = {"cfg": {"mask": rng.random() < 0.5, "compress": wbits, "notakeover": notakeover},
                       "seed": rng.randrange(2 ** 30), "messages": msgs, "schedule": sched}
+            if prog == "rebuf":      # buffers as in the model: a sends one mutable buffer twice, so does c; b's is mutable
+                mut = ["bytearray", "memoryview", "mvslice"]
+                msgs[1][1:4] = msgs[0][1:4]
+                msgs[5][1:4] = msgs[4][1:4]
+                recipe["containers"] = [[rng.choice(mut), -1], ["", 0], [rng.choice(mut), -1], [rng.choice(CONTAINERS), -1],
+                                        [rng.choice(mut), -1], ["", 4]]
+                recipe["cfg"]["mask"] = rng.random() < 0.75
             b.add(run_recipe(ctx, loop, recipe, f"tlc-sim:{prog}"))
     b.flush()
 
@@ -721,12 +796,15 @@ def selftest(ctx: Ctx) -> int:
     rv = bad6["cfg"]["runs"][0]["recv"]
     ia = [j for j, m in enumerate(rv) if m["t"] in (1, 9)]
     rv[ia[0]], rv[ia[-1]] = rv[ia[-1]], rv[ia[0]]
-    batch = [good, bad1, bad2, bad4, bad5, bad6]
+    bad7 = copy.deepcopy(good)                      # the caller's buffer was found modified after a send
+    next(e for e in bad7["events"] if e["ev"] == "end")["mut"] = True
+    batch = [good, bad1, bad2, bad4, bad5, bad6, bad7]
     vs, _ = validate_batch("WsSendTrace", "WsSendTrace.cfg", [slim(t) for t in batch])
     print([(v.ok, v.clause, v.pos) for v in vs])
     ok = vs[0].ok and all(not v.ok for v in vs[1:])
     for name, prog, kw in (("no-shield", "mix3", {"shield": False}), ("small-frames-skip-lock", "mix3", {"smalllock": False}),
-                           ("override-frames-skip-lock", "ovr2", {"ovrlock": False})):
+                           ("override-frames-skip-lock", "ovr2", {"ovrlock": False}),
+                           ("mask-in-place", "rebuf", {"maskcopies": False})):
         res = run_tlc("WsSendMC", write_cfg(prog, True, True, 2, True, latch=True, **kw), workers=16, timeout=300, deadlock=False)
         print(f"mutant {name}: violated={res.violated}")
         ok = ok and res.violated is not None and res.kind == "invariant"
